@@ -64,9 +64,9 @@ CHECKS["C12"] = dict(
         dict(name="H12b-unsigned", pkgs=["./s3api/utils"], entry="s3api/utils.VfChunkUnsignedInvalid", pkgname="utils", native=True,
              redirects="spec/redirects.json", reach=["accepted", "rejected"], key_trace=['"mutation=']),
         dict(name="H12b-signed", pkgs=["./s3api/utils"], entry="s3api/utils.VfChunkSignedInvalid", pkgname="utils", native=True,
-             redirects="spec/redirects.json", reach=["accepted", "rejected"], key_trace=['"mutation=']),
+             redirects="spec/redirects.json", reach=["rejected"], key_trace=['"mutation=']),
         dict(name="H12b-signed-trailer", pkgs=["./s3api/utils"], entry="s3api/utils.VfChunkSignedTrailerInvalid", pkgname="utils", native=True,
-             redirects="spec/redirects.json", reach=["accepted", "rejected"], key_trace=['"mutation=']),
+             redirects="spec/redirects.json", reach=["rejected"], key_trace=['"mutation=']),
         dict(name="H12-witness", pkgs=["./s3api/utils"], entry="s3api/utils.VfChunkWitness", redirects="spec/redirects.json", witness=True),
     ],
     assumptions=["hash functions and HMAC are uninterpreted functions (functional consistency only; collision freedom assumed in H12b)",
